@@ -98,7 +98,7 @@ func nlGen(g *G, tier string) []M {
 				ops = append(ops, M{"op": "byID", "a": a, "id": anyID()})
 			case 2:
 				it := identTypeStrings[g.Int(len(identTypeStrings))]
-				ops = append(ops, M{"op": "byIdent", "a": a, "tstr": it.S, "t": float64(it.N), "v": g.Pick(append(purlPool, "cpe:2.3:a:x", "v"))})
+				ops = append(ops, M{"op": "byIdent", "a": a, "tstr": it.S, "t": float64(it.N), "v": g.Pick(append(purlPool, "cpe:2.3:a:x", "v", "", ""))})
 			case 3:
 				ops = append(ops, M{"op": "rootNodes", "a": a})
 			}
